@@ -735,3 +735,160 @@ func fnContainsCallTo(fn *ssa.Function, names ...string) (ssa.Instruction, int) 
 	})
 	return first, n
 }
+
+// ---------------------------------------------------------------- natural loops
+
+// Loop is a natural loop: header plus body blocks.
+type Loop struct {
+	Header *ssa.BasicBlock
+	Blocks map[*ssa.BasicBlock]bool
+	Parent *Loop
+}
+
+// naturalLoops computes the natural loops of fn (merged per header) and their
+// nesting (Parent = smallest strictly enclosing loop).
+func naturalLoops(fn *ssa.Function) []*Loop {
+	byHeader := map[*ssa.BasicBlock]*Loop{}
+	var order []*Loop
+	for _, b := range fn.Blocks {
+		for _, s := range b.Succs {
+			if s.Dominates(b) {
+				l := byHeader[s]
+				if l == nil {
+					l = &Loop{Header: s, Blocks: map[*ssa.BasicBlock]bool{s: true}}
+					byHeader[s] = l
+					order = append(order, l)
+				}
+				// blocks that reach b without passing s
+				stack := []*ssa.BasicBlock{b}
+				for len(stack) > 0 {
+					x := stack[len(stack)-1]
+					stack = stack[:len(stack)-1]
+					if l.Blocks[x] {
+						continue
+					}
+					l.Blocks[x] = true
+					stack = append(stack, x.Preds...)
+				}
+			}
+		}
+	}
+	for _, l := range order {
+		for _, m := range order {
+			if m == l || !m.Blocks[l.Header] || len(m.Blocks) <= len(l.Blocks) {
+				continue
+			}
+			if l.Parent == nil || len(m.Blocks) < len(l.Parent.Blocks) {
+				l.Parent = m
+			}
+		}
+	}
+	return order
+}
+
+// innermostLoop returns the smallest loop containing b, or nil.
+func innermostLoop(loops []*Loop, b *ssa.BasicBlock) *Loop {
+	var best *Loop
+	for _, l := range loops {
+		if l.Blocks[b] && (best == nil || len(l.Blocks) < len(best.Blocks)) {
+			best = l
+		}
+	}
+	return best
+}
+
+func (l *Loop) blockList() []*ssa.BasicBlock {
+	var out []*ssa.BasicBlock
+	for b := range l.Blocks {
+		out = append(out, b)
+	}
+	return out
+}
+
+// lowerBound computes a conservative integer lower bound of v (ok=false if none).
+func lowerBound(v ssa.Value) (int64, bool) {
+	seen := map[ssa.Value]bool{}
+	var lb func(v ssa.Value) (int64, bool)
+	lb = func(v ssa.Value) (int64, bool) {
+		if k, ok := constInt(v); ok {
+			return k, true
+		}
+		if seen[v] {
+			return 0, false
+		}
+		seen[v] = true
+		defer delete(seen, v)
+		switch x := v.(type) {
+		case *ssa.Phi:
+			var best int64
+			have := false
+			for _, e := range x.Edges {
+				// self-increment edges do not lower the bound
+				if bo, ok := e.(*ssa.BinOp); ok && bo.Op == token.ADD {
+					if k, isK := constInt(bo.Y); isK && k >= 0 && derivesFromPhi(bo.X, x) {
+						continue
+					}
+				}
+				if e == ssa.Value(x) {
+					continue
+				}
+				b, ok := lb(e)
+				if !ok {
+					return 0, false
+				}
+				if !have || b < best {
+					best, have = b, true
+				}
+			}
+			return best, have
+		case *ssa.BinOp:
+			if x.Op == token.ADD {
+				a, ok1 := lb(x.X)
+				b, ok2 := lb(x.Y)
+				if ok1 && ok2 {
+					return a + b, true
+				}
+			}
+		case *ssa.Convert:
+			return lb(x.X)
+		case *ssa.Call:
+			if b, ok := x.Call.Value.(*ssa.Builtin); ok && b.Name() == "len" {
+				return 0, true
+			}
+		}
+		return 0, false
+	}
+	return lb(v)
+}
+
+// derivesFromPhi: v is ph or a chain of φ/+const leading back to ph.
+func derivesFromPhi(v ssa.Value, ph *ssa.Phi) bool {
+	seen := map[ssa.Value]bool{}
+	var walk func(ssa.Value) bool
+	walk = func(x ssa.Value) bool {
+		if x == ssa.Value(ph) {
+			return true
+		}
+		if seen[x] {
+			return true
+		}
+		seen[x] = true
+		switch y := x.(type) {
+		case *ssa.Phi:
+			for _, e := range y.Edges {
+				if !walk(e) {
+					return false
+				}
+			}
+			return true
+		case *ssa.BinOp:
+			if y.Op == token.ADD {
+				if k, ok := constInt(y.Y); ok && k >= 0 {
+					return walk(y.X)
+				}
+			}
+		}
+		return false
+	}
+	return walk(v)
+}
